@@ -15,8 +15,8 @@ CLAIMED = {
    note="Assumes go/ssa faithful, z3 sound, std-lib models (Sprintf, strconv digit formatting, strings.Index/Count) differential-tested; percentage reader also accepts the documented factor form and empty string. Bounds: strings <= 5 bytes quick / 8 thorough fully symbolic; long digit strings 17-20+0-2 digits. Known finding: MinInt64 printing.",
    ref="DESIGN.md 5 (C06)"),
  "C13": dict(
-   text="Bounded model checking of the real check-digit validators (DE, IT, FR VAT+SIREN, PL, GR, AT, BE, CH, NL, PT, CO in thorough, common Luhn) with z3: for every ASCII string of the national length (and +-1) the solver shows accepted <=> national format and check digit per a reference statement of the published algorithm, and for IT/FR/PL/CH (DE/AT thorough) that no two accepted codes differ in exactly one digit (2-safety). Regular expressions are evaluated as NFAs built from the pattern strings in the package initialisers.",
-   note="Assumes go/ssa faithful, z3 sound, reference algorithms transcribed from the cited national sources. Outside: ES, GB, IN, MX, BR; normalisers; non-ASCII bytes; reflection-driven dispatch from tax.Identity.Validate. Defect found and fixed: NL accepted signs (2e5c770).",
+   text="Bounded model checking of the real check-digit validators (DE, IT, FR VAT+SIREN, PL, GR, AT, BE, CH, NL, PT, BR, IN, ES DNI/NIE/CIF, CO in thorough, common Luhn) with z3: for every ASCII string of the national length (and +-1) the solver shows accepted <=> national format and check digit per a reference statement of the published algorithm, and for IT/FR/PL/CH (DE/AT thorough) that no two accepted codes differ in exactly one digit (2-safety). Regular expressions are evaluated as NFAs built from the pattern strings in the package initialisers.",
+   note="Assumes go/ssa faithful, z3 sound, reference algorithms transcribed from the cited national sources. ES organisation codes: sandwich between the lenient (digit or letter control) and the strict official rule. Outside: GB, MX; normalisers; non-ASCII bytes; reflection-driven dispatch from tax.Identity.Validate. Defect found and fixed: NL accepted signs (2e5c770).",
    ref="DESIGN.md 5 (C13)"),
  "C12": dict(
    text="Bounded model checking of rate selection with z3: for every shipped regime x category x rate key x qualifier context (tables imported natively from the initialised registry of the current tree) and for EVERY valid civil date 1900..2100 (symbolic year/month/day) the solver shows RateDef.Value and Combo.prepareRate return the applicable value with the latest start date on or before the date (none => error, exempt => no percent, surcharge copied); a generic lemma over arbitrary 1..3-value tables with symbolic dates shows the order check admits only strictly descending tables and Value is latest-on-or-before for them.",
